@@ -564,9 +564,19 @@ class PySide:
                 out.append((m.rel, q, k, node))
         return out
 
+    def _live(self, node):
+        """the code containing `node` can run: it is not inside a plain function whose name is mentioned nowhere in the toolkit
+        (special methods and decorated functions are invoked implicitly)"""
+        fd = enclosing_func(node)
+        if not isinstance(fd, (ast.FunctionDef, ast.AsyncFunctionDef)):
+            return True
+        if fd.decorator_list or (fd.name.startswith("__") and fd.name.endswith("__")):
+            return True
+        return self._referenced(fd.name)
+
     def _referenced(self, fname):
         """the function / method name is mentioned somewhere in the toolkit other than at its definition"""
-        for m in self.repo.tk_modules():
+        for m in self.repo.tk_modules(include_tests=True):
             for n in ast.walk(m.tree):
                 if (isinstance(n, ast.Attribute) and n.attr == fname) or (isinstance(n, ast.Name) and n.id == fname):
                     return True
@@ -692,7 +702,7 @@ class PySide:
             for mrel, q, k, node in self._other_writers(a):
                 if mrel == F_GSM and q == "HoppingParams.resolve" and k == "store":
                     continue
-                if not self._referenced(q.rsplit(".", 1)[-1]):
+                if not self._live(node):
                     continue
                 raise AnalysisError("%s; `%s` is also written (%s) in %s (%s); unclassifiable" % (what, a, k, q, mrel))
         # (4) the key covers every input of the remembered computation
@@ -705,7 +715,7 @@ class PySide:
             if a is None or "." in a or not (v[1] in self.init_env or a in self.ci.attrs) or a in attrs:
                 raise AnalysisError("%s: the remembered computation reads `%s`, which is neither part of the key `%s` nor an "
                                     "attribute only the constructor stores; unclassifiable" % (what, v[1], G.show(KEY)[:80]))
-            w = [(mrel, q, k) for mrel, q, k, _n in self._other_writers(a) if self._referenced(q.rsplit(".", 1)[-1])]
+            w = [(mrel, q, k) for mrel, q, k, node in self._other_writers(a) if self._live(node)]
             if w:
                 raise AnalysisError("%s: the remembered computation reads `%s`, which is not part of the key and is written (%s) in "
                                     "%s (%s); unclassifiable" % (what, v[1], w[0][2], w[0][1], w[0][0]))
